@@ -1201,6 +1201,53 @@ func init() {
 				}
 			}
 		}
+		// commutativity at size: products of wide ORs (64 and more rows), the operands once in random and once in sorted
+		// order — the extracted set and the verdict must not depend on the order operands are written in
+		{
+			var pool []string
+			inFam := map[string]bool{}
+			for _, x := range famIDs {
+				inFam[x] = true
+			}
+			for _, x := range tblActive {
+				if !inFam[x] && !strings.HasSuffix(x, "-only") && !strings.HasSuffix(x, "-or-later") && len(x) < 14 {
+					pool = append(pool, x)
+				}
+			}
+			for _, widths := range [][]int{{8, 8}, {4, 16}, {2, 32}, {9, 8}, {3, 3, 8}} {
+				total := 0
+				for _, wd := range widths {
+					total += wd
+				}
+				for round := 0; round < scale(100, 1000) && total <= len(pool); round++ {
+					ids := append([]string{}, pool...)
+					rng.Shuffle(len(ids), func(i, j int) { ids[i], ids[j] = ids[j], ids[i] })
+					ids = ids[:total]
+					var g1, g2 []string
+					at := 0
+					for _, wd := range widths {
+						grp := append([]string{}, ids[at:at+wd]...)
+						g1 = append(g1, "("+strings.Join(grp, " OR ")+")")
+						sort.Strings(grp)
+						g2 = append(g2, "("+strings.Join(grp, " OR ")+")")
+						at += wd
+					}
+					e1, e2 := strings.Join(g1, " AND "), strings.Join(g2, " AND ")
+					x1, x2 := implExt(e1), implExt(e2)
+					res.Evaluations++
+					count("wide_products_commuted")
+					if extractSetNorm(x1.String()) != extractSetNorm(x2.String()) {
+						fail(failure{Stream: "oracle", What: "writing the operands of wide ORs in another order changed the set ExtractLicenses returns", Case: &kase{Expr: e1, ExprHex: hx(e1), Extra: map[string]string{"plain": e2}}, Impl: x1.String(), Expected: x2.String()})
+						break
+					}
+					l := []string{ids[0], ids[total-1]}
+					if r1, r2 := implSat(e1, l), implSat(e2, l); r1.String() != r2.String() {
+						fail(failure{Stream: "oracle", What: "writing the operands of wide ORs in another order changed Satisfies", Case: &kase{Expr: e1, ExprHex: hx(e1), Allowed: l, Extra: map[string]string{"plain": e2}}, Impl: r1.String(), Expected: r2.String()})
+						break
+					}
+				}
+			}
+		}
 		// ONE licence in several spellings / decorations in one row, grouped differently (shortcuts that count distinct
 		// licences in a sorted row): all groupings of the same conjunction must agree on every small list
 		for _, id := range tblActive {
@@ -1219,6 +1266,18 @@ func init() {
 					a3 + " AND (" + a1 + " AND " + a2 + ")",
 					"(" + a2 + " AND " + a3 + " AND " + a1 + ") OR (" + a1 + " AND " + a2 + " AND " + a3 + ")",
 					"(" + a1 + " AND " + a2 + ") AND (" + a3 + " AND " + a1 + ")",
+				}
+				// the composition law over the same spellings: Satisfies((E) AND (F)) = Satisfies(E) && Satisfies(F) …
+				ct := make([]*term, 4)
+				for i := range ct {
+					ct[i] = &term{text: sp[pm[i]], caseMod: -1}
+				}
+				for j := 0; j < 3; j++ {
+					res.Evaluations++
+					if f := c10Compose(ct); f != nil {
+						fail(*f)
+						break
+					}
 				}
 				for _, l := range subsetsOf(sp, 6) {
 					if len(l) > 3 {
@@ -1303,6 +1362,13 @@ func init() {
 	replays["C10"] = func(k *kase) *failure {
 		if k.Extra != nil && k.Extra["tree2"] != "" {
 			return c10Check(k, false)
+		}
+		if k.Extra != nil && k.Extra["plain"] != "" && len(k.Allowed) == 0 {
+			x1, x2 := implExt(k.Extra["plain"]), implExt(k.Expr)
+			if extractSetNorm(x1.String()) != extractSetNorm(x2.String()) {
+				return &failure{Stream: "oracle", What: "two forms of one expression give different extracted sets", Case: k, Impl: x2.String(), Expected: x1.String()}
+			}
+			return nil
 		}
 		if k.Extra != nil && k.Extra["plain"] != "" {
 			r1, r2 := implSat(k.Extra["plain"], k.Allowed), implSat(k.Expr, k.Allowed)
